@@ -75,6 +75,20 @@ RECURSIVE RRun(_, _)
 RRun(tk, r) == IF r.i > Len(tk) THEN r ELSE RRun(tk, RStep(tk, r))
 ReadTokens(tk) == LET r == RRun(tk, RInit) IN [ents |-> r.ents, rks |-> r.rks]
 
+(* Finite abstraction of the two automata (token KINDS only: the entries    *)
+(* and their digits are irrelevant to the tie structure).  `last` says       *)
+(* whether the entry is the last of the list.  spec/unbounded/TiesAbs.tla    *)
+(* model-checks the abstract product for lists of ANY length; MC_Ties.tla    *)
+(* checks that every concrete WStep / RStep is an abstract step.             *)
+KindOfToken(tok) == IF Has(tok, LPARc) THEN "open" ELSE IF Has(tok, RPARc) THEN "close" ELSE "plain"
+AbsKind(wIn, t, last) == IF ~wIn /\ t = 1 /\ ~last THEN "open"
+                         ELSE IF wIn /\ t = 0 THEN "close"
+                         ELSE IF last /\ wIn THEN "close" ELSE "plain"
+AbsWIn(wIn, t, last)  == IF ~wIn /\ t = 1 /\ ~last THEN TRUE
+                         ELSE IF wIn /\ t = 0 THEN FALSE ELSE wIn
+AbsRIn(rIn, kind)     == IF kind = "open" THEN TRUE ELSE IF kind = "close" THEN FALSE ELSE rIn
+AbsRInc(rIn, kind)    == IF kind = "open" THEN 0 ELSE IF kind = "close" THEN 1 ELSE IF rIn THEN 0 ELSE 1
+
 (* Laws of the writer output (C13), stated on the token sequence.          *)
 RECURSIVE DepthAt(_, _)      \* parenthesis depth after token i
 DepthAt(tk, i) == IF i = 0 THEN 0
